@@ -296,11 +296,11 @@ def audit(prop, module, theorems, imports=""):
 # ----------------------------------------------------------------------------------
 # running both sides
 # ----------------------------------------------------------------------------------
-def _run_sharded(binary, lines, shards=NPROC, timeout=1200, env=None):
+def _run_sharded(binary, lines, shards=NPROC, timeout=1200, env=None, per_shard=50):
     """lines: list of 'id comp xval'.  Returns dict id -> output text."""
     if not lines:
         return {}
-    shards = max(1, min(shards, len(lines) // 50 + 1))
+    shards = max(1, min(shards, len(lines) // per_shard + 1))
     chunks = [lines[i::shards] for i in range(shards)]
     procs = []
     for ch in chunks:
@@ -346,14 +346,14 @@ class Case:
         self.profile = profile
 
 
-def run_cases(cases, bins, drv, impl_shards=NPROC):
+def run_cases(cases, bins, drv, impl_shards=NPROC, per_shard=50):
     """Runs implementation (per profile) and model (+spec) on all cases."""
     for i, c in enumerate(cases):
         c.id = "c%d" % i
     impl = {}
     for prof, binary in bins.items():
         lines = ["%s %s %s" % (c.id, c.comp, xtext(c.x)) for c in cases if c.profile == prof]
-        impl.update(_run_sharded(binary, lines, shards=impl_shards))
+        impl.update(_run_sharded(binary, lines, shards=impl_shards, per_shard=per_shard))
     mlines = ["%s %s %s" % (c.id, c.comp, xtext(c.x)) for c in cases]
     model = _run_sharded(drv, mlines)
     slines = ["%s %s %s" % (c.id, c.spec, xtext(c.x)) for c in cases if c.spec]
